@@ -71,6 +71,13 @@ let sinks_x p =
 
 let cls specs cands = C.classify rmatch specs cands
 
+(* the configuration as the model sees it: taint problems in config order, sinks after interface expansion *)
+let model_cfg () =
+  List.map (fun p -> { C.p_sources = List.rev p.source; p_sinks = sinks_x p; p_sanitizers = List.rev p.sanitizer;
+                       p_validators = List.rev p.validator }) (List.rev !tproblems)
+
+let noi cands = if C.node_of_interest rmatch (model_cfg ()) cands then "1" else "0"
+
 let fn_of = function
   | [fl; pk; nm; st] -> if fl = "-" then None else Some { C.f_pkg = cs pk; f_name = cs nm; f_str = cs st }
   | _ -> failwith "fn needs 4 fields"
@@ -112,6 +119,7 @@ let () =
         | _ -> failwith "A line expected"))
   in
   let tmp_specs = ref [] in
+  let tmp_probs : C.spec list list ref = ref [] in   (* finished problems of a matcher case, reversed *)
   let spec_of comp rest = { C.sp_cid = cid_of rest; sp_compiled = bool_of comp } in
   while !i < n do
     match next () with
@@ -143,11 +151,13 @@ let () =
                 s_aliases = al } in
       Hashtbl.replace sites sid s;
       let ec = C.entry_cands fvpkg s in
-      Printf.printf "E\t%s\t%s\t%s\t%s\t%s\n" sid
+      Printf.printf "E\t%s\t%s\t%s\t%s\t%s\t%s\t%s\n" sid
         (bits (fun p -> cls (List.rev p.source) ec) !tproblems)
         (bits (fun p -> cls (List.rev p.backtrace) ec) !sproblems)
         (bits (fun p -> cls (List.rev p.validator) (C.validator_cands s)) !tproblems)
         (bits (fun p -> cls (sinks_x p) (C.call_cands s None)) !tproblems)
+        (bits (fun p -> cls (sinks_x p) ec) !tproblems)
+        (noi ec)
     | "NODE" :: sid :: nid :: rest ->
       let s = Hashtbl.find sites sid in
       let (callee, param) = (match rest with
@@ -180,7 +190,7 @@ let () =
                 o_parent = cs par; o_ty = t; o_field = cs field } in
       let ec = C.op_cands o and sc = C.op_sink_cands o and ids = C.op_ids o in
       let specs_cid l = List.map (fun sp -> sp.C.sp_cid) l in
-      Printf.printf "O\t%s\t%s\t%s\t%s\t%s\t%s\t%s\n" oid
+      Printf.printf "O\t%s\t%s\t%s\t%s\t%s\t%s\t%s\t%s\t%s\n" oid
         (bits (fun p -> cls (List.rev p.source) ec) !tproblems)
         (bits (fun p -> cls (sinks_x p) sc) !tproblems)
         (bits (fun p -> cls (List.rev p.backtrace) ec) !sproblems)
@@ -188,6 +198,8 @@ let () =
         (bits (fun p -> C.classify_ideal rmatch (specs_cid (List.rev p.source)) ids) !tproblems)
         (bits (fun p -> (match o.C.o_kind with C.OStore -> C.classify_ideal rmatch (specs_cid (List.rev p.sink)) ids | _ -> false)) !tproblems)
         (bits (fun p -> C.classify_ideal rmatch (specs_cid (List.rev p.backtrace)) ids) !sproblems)
+        (bits (fun p -> cls (sinks_x p) ec) !tproblems)
+        (noi ec)
     | ["FN"; fid; pk; nm; st] ->
       let c = C.fn_bt_cand { C.f_pkg = cs pk; f_name = cs nm; f_str = cs st } in
       Printf.printf "F\t%s\t%s\n" fid (bits (fun p -> cls (List.rev p.backtrace) [c]) !sproblems)
@@ -223,7 +235,13 @@ let () =
       let ps = if role = "backtrace" then !sproblems else !tproblems in
       Printf.printf "ID\t%s\t%s\t%s\n" key role
         (bits (fun p -> C.classify_ideal rmatch (specs_cid (List.rev (sel p))) ids) ps)
-    | ["MB"] -> tmp_specs := []
+    | ["MB"] -> tmp_specs := []; tmp_probs := []
+    | ["MP"] -> tmp_probs := List.rev !tmp_specs :: !tmp_probs; tmp_specs := []
+    | "MS" :: mid :: rest ->
+      (* Config.IsSomeX: the problems of the case, in order; the role's list is held in p_sources *)
+      let cfg = List.map (fun l -> { C.p_sources = l; p_sinks = []; p_sanitizers = []; p_validators = [] })
+          (List.rev (List.rev !tmp_specs :: !tmp_probs)) in
+      Printf.printf "M\t%s\t%s\n" mid (if C.is_some rmatch (fun p -> p.C.p_sources) cfg (cid_of rest) then "1" else "0")
     | "MC" :: mid :: rest ->
       Printf.printf "M\t%s\t%s\n" mid (if C.exists_cid rmatch (List.rev !tmp_specs) (cid_of rest) then "1" else "0")
     | [""] | [] -> ()
